@@ -361,7 +361,21 @@ pub fn c10_abandon_hash_cases(rng: &mut Rng, tier: &str, out: &mut Out) {
     while done < n {
         let layers = [0u8, L_COMP, L_ENC, L_ENC | L_COMP][k % 4];
         k += 1;
-        let plan = gen_plan(rng, layers);
+        let mut plan = gen_plan(rng, layers);
+        if k <= 12 {
+            // another file ENDS (its EndOfFile block, via an empty last piece) right after a run of the file read:
+            // b data, a run, b's end, a run (, c's end, a run)
+            let n1 = 5 + (k * 7) % 60;
+            let mut pieces = vec![(1usize, rng.bytes(9)), (0usize, rng.bytes(n1)), (1, Vec::new()), (0, rng.bytes(30 + k))];
+            let mut names = vec![b"a_split".to_vec(), b"b_inner".to_vec()];
+            if k % 2 == 0 {
+                names.push(b"c".to_vec());
+                pieces.insert(0, (2, rng.bytes(4)));
+                pieces.push((2, Vec::new()));
+                pieces.push((0, rng.bytes(11)));
+            }
+            plan = Plan { names, pieces, layers, level: 1, recipients: 1, reader_key: 0 };
+        }
         if plan.names.len() < 2 || !plan.pieces.windows(2).any(|w| w[0].0 != w[1].0) {
             continue;
         }
